@@ -53,6 +53,7 @@ Noise ==
              C11_first_noise_sets_params     |-> (E.st = "ok" /\ E.before.zero) => E.is_param,
              C11_later_noise_reestimates     |-> (E.st = "ok" /\ ~E.before.zero) => E.is_reest,
              C11_failed_call_leaves_frame    |-> E.st = "ok" \/ (E.data_same /\ E.after = E.before),
+             C06_earlier_results_untouched   |-> E.held_ok,
              C06_axes_untouched              |-> E.axes_same], E.fid, E.after)
 
 ZeroData ==
@@ -66,6 +67,7 @@ Signal ==
              C06_returned_is_delta             |-> E.st # "ok" \/ E.delta_ok,
              C06_axes_untouched                |-> E.axes_same,
              C06_metadata_untouched            |-> E.meta_same,
+             C06_earlier_results_untouched     |-> E.held_ok,
              C06_failed_injection_adds_nothing |-> E.st = "ok" \/ E.data_same], E.fid, E.after)
 
 Snr ==
